@@ -10,7 +10,7 @@ from vlib import ToolError
 
 # Until the lead has merged the dispatch line / MemPoke disjunct into the shared spec these point at the builder's private
 # copy (a snapshot of spec/vm plus those lines, see docs/NOTES_vmwide.md). At integration: "vm/FuelVM_Trace.tla", "vm/VmWide_MC.tla".
-_PRIV = os.path.join(vlib.ROOT, "work", "vmwide", "spec")
+_PRIV = os.path.join(vlib.SPEC, "vm")
 SPEC_TR = os.path.join(_PRIV, "FuelVM_Trace.tla")
 SPEC_MC = os.path.join(_PRIV, "VmWide_MC.tla")
 BIN = "vh_vmwide"
